@@ -29,14 +29,33 @@ fn two(main: &str, other: (&str, &str)) -> Sources {
 type W = (&'static str, &'static str, fn() -> Option<String>);
 
 /// (property, key, observation) — observation returns the signature if the finding still reproduces.
-pub const WITNESSES: [W; 8] = [
+pub const WITNESSES: [W; 11] = [
     ("C01", "c01-cross-module-instantiation", || {
         let src = two("use \"a.oal\";\nres / on get -> f <>;\n", ("a.oal", "let f x = { 'p x };\n"));
         match pipeline::run(&src, None) {
             Outcome::Panic { stage, accepted: true, info } => Some(format!(
                 "C01 panic in {stage}: {} [cross-module-application]",
-                info.signature()
+                info.class()
             )),
+            _ => None,
+        }
+    }),
+    ("C01", "c01-recursion-placeholder-memoised", || {
+        let src = Sources::single("let node = / on get -> x;\nlet x = node;\nres node;\nres x;\n");
+        match pipeline::run(&src, None) {
+            Outcome::Panic { stage, accepted: true, info } => Some(format!("C01 panic in {stage}: {}", info.signature())),
+            _ => None,
+        }
+    }),
+    ("C01", "c01-sum-of-uris-as-uri", || {
+        match pipeline::run(&Sources::single("res concat (/a | /b) /c;\n"), None) {
+            Outcome::Panic { stage, accepted: true, info } => Some(format!("C01 panic in {stage}: {}", info.signature())),
+            _ => None,
+        }
+    }),
+    ("C01", "c01-sum-of-uris-as-relation", || {
+        match pipeline::run(&Sources::single("res (/a | /b);\n"), None) {
+            Outcome::Panic { stage, accepted: true, info } => Some(format!("C01 panic in {stage}: {}", info.signature())),
             _ => None,
         }
     }),
